@@ -96,6 +96,15 @@ fn templates() -> Vec<Template> {
         add(lint, "custom", vec![slot(Sibling), l("struct Sib {}"), slot(Elem), l(c), l("custom C")]);
         add(lint, "alias", vec![slot(Sibling), l("struct Sib {}"), slot(Elem), l(c), l("typealias A = int32")]);
     }
+    // the other sites that produce IncorrectDocComment on an operation: a @param without such a parameter, a named
+    // @returns on a single return, a @returns naming no member of the return tuple; and a doc comment on the field of an
+    // enumerator (a scope four levels deep), links in tag messages and @see
+    add("IncorrectDocComment", "operation-param-without-parameter", vec![slot(Def), l("interface I {"), slot(Sibling), l("  other()"), slot(Elem), l("/// @param zz: no such parameter"), l("  op(a: int32)"), l("}")]);
+    add("IncorrectDocComment", "operation-named-returns-on-single-return", vec![slot(Def), l("interface I {"), slot(Sibling), l("  other()"), slot(Elem), l("/// @returns named: but the return is unnamed"), l("  op() -> int32"), l("}")]);
+    add("IncorrectDocComment", "operation-returns-naming-no-member", vec![slot(Def), l("interface I {"), slot(Sibling), l("  other()"), slot(Elem), l("/// @returns nope: not a member of the tuple"), l("  op() -> (x: int32, y: int32)"), l("}")]);
+    add("MalformedDocComment", "enumerator-field", vec![slot(Def), l("enum E {"), slot(Sibling), l("  W"), slot(Member), l("  V("), slot(Elem), l("/// @foo bar"), l("    f: int32"), l("  )"), l("}")]);
+    add("BrokenDocLink", "link-in-a-param-message", vec![slot(Def), l("interface I {"), slot(Sibling), l("  other()"), slot(Elem), l("/// @param a: see {@link Nope}"), l("  op(a: int32)"), l("}")]);
+    add("BrokenDocLink", "see-tag", vec![slot(Sibling), l("struct Sib {}"), slot(Elem), l("/// @see Nope"), l("struct S {}")]);
     v
 }
 
